@@ -537,6 +537,7 @@ func (g *jsGen) function(kind string, async, generator bool, exprBody bool) (par
 		if r.Intn(2) == 0 {
 			body.Kids = append(body.Kids, &JSNode{K: "return", Kids: []*JSNode{g.expr(2, pComma)}})
 		}
+		body.Kids = g.sprinkleUseStrict(body.Kids)
 	}
 	if strict {
 		g.noYield--
@@ -972,6 +973,23 @@ func (g *jsGen) assignPattern(depth int) *JSNode {
 	return n
 }
 
+// sprinkleUseStrict sometimes inserts the expression statement "use strict" behind a statement that is not a string
+// literal statement: outside a directive prologue it is an ordinary expression statement, not a directive.
+func (g *jsGen) sprinkleUseStrict(list []*JSNode) []*JSNode {
+	if len(list) == 0 || g.r.Intn(12) != 0 {
+		return list
+	}
+	pos := 1 + g.r.Intn(len(list))
+	prev := list[pos-1]
+	if prev == nil || prev.K == "directive" || prev.K == "exprstmt" && len(prev.Kids) == 1 && prev.Kids[0] != nil && (prev.Kids[0].K == "str" || prev.Kids[0].K == "template") {
+		return list
+	}
+	st := &JSNode{K: "exprstmt", Kids: []*JSNode{{K: "str", S: Pick(g.r, []string{`"use strict"`, `'use strict'`})}}}
+	out := append([]*JSNode{}, list[:pos]...)
+	out = append(out, st)
+	return append(out, list[pos:]...)
+}
+
 func (g *jsGen) block(depth int) *JSNode {
 	g.push("block")
 	for _, n := range g.bodyReserved {
@@ -982,6 +1000,7 @@ func (g *jsGen) block(depth int) *JSNode {
 	for i := g.r.Intn(3); i > 0 && g.budget > 0; i-- {
 		n.Kids = append(n.Kids, g.stmt(depth+1, false))
 	}
+	n.Kids = g.sprinkleUseStrict(n.Kids)
 	g.pop()
 	return n
 }
@@ -1382,6 +1401,7 @@ func JSProgram(r *rand.Rand, o JSOpts) *JSProg {
 			prog.Kids = append(prog.Kids, g.stmt(0, true))
 		}
 	}
+	prog.Kids = g.sprinkleUseStrict(prog.Kids)
 	g.resolve()
 	return &JSProg{Root: prog, Bindings: g.nextID}
 }
